@@ -322,6 +322,11 @@ func c15Tickets(c *Ctx, p *Prog) {
 		if del == nil || !instrDominates(del, r) {
 			bad = "a ticket is returned at " + p.InstrPos(r) + " without having been deleted from the store: it would be presented again"
 		}
+		if _, isCall := del.(*ssa.Call); del != nil && !isCall {
+			// defer delete(...) / go delete(...): the instruction dominates the return but the deletion runs at
+			// the function's exit, after the store was written back — the file still holds the ticket
+			bad = "the deletion at " + p.InstrPos(del) + " is deferred: it runs after the store was written back, so the ticket handed out is still on disk and is presented again after a restart"
+		}
 		// the value looked up in the store under the address: m[k] or the first result of v, ok := m[k]
 		isLookup := false
 		switch x := unspill(v).(type) {
